@@ -309,6 +309,7 @@ func (c *converter) trackAddedIngress() {
 		ctx := convtypes.ResourceHAHostname
 		if port > 0 {
 			ctx = convtypes.ResourceHATCPService
+			c.tracker.TrackNames(convtypes.ResourceIngress, name, ctx, tcpPortTrackingName(port))
 		}
 		if ing.Spec.DefaultBackend != nil && (port > 0 || c.haproxy.Hosts().FindHost(hatypes.DefaultHost) != nil) {
 			// the default backend is the root path of the default host,
@@ -351,6 +352,12 @@ func (c *converter) findBackend(namespace string, backend *networking.IngressBac
 		return nil
 	}
 	return c.haproxy.Backends().FindBackend(namespace, svcName, port.TargetPort.String())
+}
+
+// tcpPortTrackingName is the name that links, in the tcp service context, all the
+// ingress resources that declare the same tcp port. It doesn't name a tcp service.
+func tcpPortTrackingName(port int) string {
+	return ":" + strconv.Itoa(port)
 }
 
 // normalizeHostname adjusts the hostname according to the following rules:
@@ -533,6 +540,9 @@ func (c *converter) syncIngressHTTP(source *annotations.Source, ing *networking.
 }
 
 func (c *converter) syncIngressTCP(source *annotations.Source, ing *networking.Ingress, tcpServicePort int, annTCP, annBack map[string]string) {
+	// TLS and annotations are configured per tcp port and shared by all of its services,
+	// so every ingress that declares the port is rebuilt together with the port
+	c.tracker.TrackNames(source.Type, source.FullName(), convtypes.ResourceHATCPService, tcpPortTrackingName(tcpServicePort))
 	addIngressBackend := func(rawHostname string, ingressBackend *networking.IngressBackend) error {
 		hostname := normalizeHostname(rawHostname, tcpServicePort)
 		tcpService, err := c.addTCPService(source, hostname, annTCP)
